@@ -290,3 +290,48 @@ def run_as(run: Run, src: str, dst: str, fn) -> None:
         else:
             run.violation(dst, i["construct"], i["aspect"], i["obligation"], i["loc"],
                           i.get("stmt", ""))
+
+
+def parents_descending(prog: Program, call: ast.Call) -> Optional[bool]:
+    """Effective order of ``self._get_parent_refs_sorted_by_priority(...)`` at one call site:
+    True = highest priority first, False = lowest first, None = cannot tell. The helper's
+    ``sorted(..., reverse=<expr>)`` is evaluated with the call's arguments and the defaults."""
+    s = prog.func("HierarchyElement._get_parent_refs_sorted_by_priority")
+    rets = [r for r in walk_no_nested(s.node) if isinstance(r, ast.Return)]
+    if len(rets) != 1 or not (isinstance(rets[0].value, ast.Call) and
+                              call_name(rets[0].value) == "sorted"):
+        return None
+    c = rets[0].value
+    kws = {k.arg: k.value for k in c.keywords}
+    a = s.node.args
+    names = [x.arg for x in a.args][1:]
+    bound = {}
+    defaults = a.defaults
+    for nm, d in zip(names[len(names) - len(defaults):], defaults):
+        bound[nm] = d
+    for nm, v in zip(names, call.args):
+        bound[nm] = v
+    for k in call.keywords:
+        if k.arg is not None:
+            bound[k.arg] = k.value
+
+    def ev(e) -> Optional[bool]:
+        if e is None:
+            return False
+        if isinstance(e, ast.Constant) and isinstance(e.value, bool):
+            return e.value
+        if isinstance(e, ast.Name) and e.id in bound:
+            return ev(bound[e.id]) if not isinstance(bound[e.id], ast.Name) else None
+        if isinstance(e, ast.UnaryOp) and isinstance(e.op, ast.Not):
+            r = ev(e.operand)
+            return None if r is None else not r
+        return None
+    rev = ev(kws.get("reverse"))
+    if rev is None:
+        return None
+    key = ast.unparse(kws["key"]) if "key" in kws else ""
+    if "inheritance_priority" not in key:
+        return None
+    if "-" in key:
+        rev = not rev
+    return rev
